@@ -99,10 +99,10 @@ P("C09", [f"{RED}:get_multiplier_sequence"], "bounded/C09.py",
   "Proof core: the zoom plan (three loops with invariants and a variant): every non-base resolution is derived from the LARGEST smaller member dividing it with multiplier >= 2, a supplied base is never re-derived, and a non-derivable member is refused exactly. Bounded stand-in for the rest (plan level: all subsets of resolutions x bases; file level against direct coarsening).",
   level="other", unverified=["zoomify_cooler (copy of the base, one coarsen_cooler call per planned step, file modes)"])
 
-P("C10", [f"{BAL}:_init", f"{BAL}:_binarize", f"{BAL}:_zero_diags", f"{BAL}:_zero_trans", f"{BAL}:_zero_cis", f"{BAL}:_timesouterproduct"], "bounded/C10.py", "Proof core: the per-pixel filters of the balancing pipeline are verified elementwise for every chunk (which pixels are zeroed: |bin1-bin2| < n_diags strictly, trans / cis by the chromosome of the two bins; binarisation; weighting by vec[bin1]*vec[bin2]) together with their frame (no filter writes the shared chunk; _init returns a fresh copy). Bin-level masks, the iteration and the flatness bound are covered by the bounded tier only.", level="other",
+P("C10", [f"{BAL}:_init", f"{BAL}:_binarize", f"{BAL}:_zero_diags", f"{BAL}:_zero_trans", f"{BAL}:_zero_cis", f"{BAL}:_timesouterproduct", f"{BAL}:balance_cooler"], "bounded/C10.py", "Proof core: the per-pixel filters of the balancing pipeline are verified elementwise for every chunk (which pixels are zeroed: |bin1-bin2| < n_diags strictly, trans / cis by the chromosome of the two bins; binarisation; weighting by vec[bin1]*vec[bin2]) together with their frame (no filter writes the shared chunk; _init returns a fresh copy). Bin-level masks, the iteration and the flatness bound are covered by the bounded tier only.", level="other",
   unverified=["_marginalize (bincount)", "_balance_genomewide/_cisonly/_transonly loops", "balance_cooler masks (min_nnz, min_count, MAD)"])
 
-P("C11", [f"{UT}:partition", f"{BAL}:_init", f"{BAL}:_zero_diags", f"{BAL}:_timesouterproduct"], "bounded/C11.py", "Proof core: util.partition tiles [start, stop) exactly for every step (used for the per-chromosome spans of cis-only balancing). Bounded stand-in for the rest.", level="other",
+P("C11", [f"{UT}:partition", f"{BAL}:_init", f"{BAL}:_zero_diags", f"{BAL}:_timesouterproduct", f"{BAL}:balance_cooler"], "bounded/C11.py", "Proof core: util.partition tiles [start, stop) exactly for every step (used for the per-chromosome spans of cis-only balancing). Bounded stand-in for the rest.", level="other",
   unverified=["balance_cooler spans", "parallel.split/MultiplexDataPipe", "chunkgetter"])
 
 P("C12", [f"{API}:matrix", f"{API}:Cooler.matrix", f"{RQ}:CSRReader.__call__"], "bounded/C12.py",
